@@ -294,6 +294,7 @@ func genMRStmt(rng *rand.Rand) refStmt {
 	exp("c-needwindow", "f")
 	exp("c-window", "tumbling")
 	exp("c-with", "-", "0", "0", "0", "0", "ProcessingTime")
+	exp("c-statettl", "0")
 	exp(append([]string{"c-orderby"}, ob[1:]...)...)
 	exp("c-trigger", "-")
 	exp("c-mode", "2")
